@@ -364,6 +364,187 @@ fn c17b_validate_v4_3roas() {
 
 //------------ C17(d): removing a redundant ROA cannot invalidate -------------
 
+/// No-op replacement for `<[T]>::sort`: the ORDER of the lists inside a report
+/// entry is not part of the property, and std's sort on vectors of symbolic
+/// length is what exhausted memory.
+pub(crate) fn nop_sort<T: Ord>(_s: &mut [T]) {}
+
+/// The real redundancy decision: `categorise_roa` on two arbitrary ROAs (no
+/// announcements needed for this decision). Whenever it files R0 as
+/// "redundant" (the state `suggest` turns into a removal), every route R0
+/// matches is also matched by the other ROA, so the removal cannot turn a
+/// valid announcement invalid or not-found.
+// vk: timeout=900; bound=2 arbitrary v4 ROAs, no announcements, one arbitrary route; list sorting inside report entries stubbed out
+#[kani::proof]
+#[kani::unwind(5)]
+#[kani::stub(<[Announcement]>::sort, nop_sort)]
+fn c17d_redundant_removal_safe_v4() {
+    let r0 = any_roa4();
+    let r1 = any_roa4();
+    let roas = [Roa::new(pfx4(&r0), &r0), Roa::new(pfx4(&r1), &r1)];
+    let entry = BgpAnalyser::categorise_roa(roas[0], &[], &roas);
+    let ap = any_v4();
+    let route = Route { bits: (v4_bits(ap) as u128) << 96, len: ap.addr_len(), asn: AsNumber::from_u32(kani::any()) };
+    let redundant = entry.state() == BgpAnalysisState::RoaRedundant;
+    if redundant && ref_matches(&vrp4(&r0), &route) {
+        assert!(ref_matches(&vrp4(&r1), &route));
+    }
+    kani::cover!(redundant && ref_matches(&vrp4(&r0), &route));
+    kani::cover!(!redundant);
+    std::mem::forget(entry);
+}
+
+//------------ C17(e): per-ROA categorisation -----------------------------------
+
+fn is_ann(list: &[Announcement], a: &RouteOrigin<Ipv4Prefix>) -> bool {
+    list.len() == 1 && list[0].asn == a.origin && list[0].prefix == TypedPrefix::V4(a.prefix)
+}
+
+/// `categorise_roa` for a single arbitrary ROA against one arbitrary
+/// validated announcement: the entry's `authorizes` holds the announcement
+/// iff R0 matches it; `disallows` holds it iff R0 covers it and validation
+/// found it invalid; "unseen" iff neither; and the state never contradicts
+/// the lists.
+// vk: tier=thorough; timeout=1800; bound=1 arbitrary v4 ROA x 1 arbitrary announcement (origin not AS0), full width; list sorting inside report entries stubbed out (order is not part of the property)
+#[kani::proof]
+#[kani::unwind(6)]
+#[kani::stub(<[Announcement]>::sort, nop_sort)]
+fn c17e_categorise_sets_1roa_v4() {
+    let r0 = any_roa4();
+    let ap = any_v4();
+    let ann = RouteOrigin { prefix: ap, origin: AsNumber::from_u32(kani::any()) };
+    // AS0 never originates a route (RFC 7607); an AS0 ROA "matching" such a
+    // route is not a case the property speaks about
+    kani::assume(ann.origin != AsNumber::AS0);
+    let roas = [Roa::new(pfx4(&r0), &r0)];
+    let route = Route { bits: (v4_bits(ap) as u128) << 96, len: ap.addr_len(), asn: ann.origin };
+    let vrps = [vrp4(&r0)];
+    let m0 = ref_matches(&vrps[0], &route);
+    let c0 = ref_covers(&vrps[0], &route);
+    let verdict = ref_verdict(&vrps, &route);
+    // Composition: c17b shows validate_set == reference verdict, so the
+    // validated origin handed to categorise_roa carries the reference verdict
+    // (running validate_set in the same harness exceeded the memory cap).
+    let validated = [ValidatedRouteOrigin {
+        route_origin: ann,
+        validity: match verdict {
+            RefVerdict::Valid => RouteOriginValidity::Valid(r0.roa_configuration.payload),
+            RefVerdict::NotFound => RouteOriginValidity::NotFound,
+            RefVerdict::InvalidLength => RouteOriginValidity::InvalidLength,
+            RefVerdict::InvalidAsn => RouteOriginValidity::InvalidAsn,
+            RefVerdict::Disallowed => RouteOriginValidity::Disallowed,
+        },
+        disallowing: Vec::new(),
+    }];
+    let entry = BgpAnalyser::categorise_roa(roas[0], &validated, &roas);
+    let invalid = matches!(verdict, RefVerdict::InvalidLength | RefVerdict::InvalidAsn | RefVerdict::Disallowed);
+    let st = entry.state();
+    match st {
+        BgpAnalysisState::RoaAs0Redundant => {
+            // by design this entry carries no announcement lists
+            assert!(r0.roa_configuration.payload.asn == AsNumber::AS0);
+        }
+        BgpAnalysisState::RoaAs0 => {
+            assert!(r0.roa_configuration.payload.asn == AsNumber::AS0);
+            assert!(entry.authorizes().is_empty());
+            assert!(is_ann(entry.disallows(), &ann) == (c0 && invalid));
+            assert!(entry.disallows().is_empty() == !(c0 && invalid));
+        }
+        BgpAnalysisState::RoaSeen | BgpAnalysisState::RoaTooPermissive
+        | BgpAnalysisState::RoaRedundant | BgpAnalysisState::RoaDisallowing
+        | BgpAnalysisState::RoaUnseen => {
+            assert!(r0.roa_configuration.payload.asn != AsNumber::AS0);
+            assert!(is_ann(entry.authorizes(), &ann) == m0);
+            assert!(entry.authorizes().is_empty() == !m0);
+            assert!(is_ann(entry.disallows(), &ann) == (c0 && invalid));
+            assert!(entry.disallows().is_empty() == !(c0 && invalid));
+            if st == BgpAnalysisState::RoaUnseen { assert!(!m0 && !(c0 && invalid)); }
+            if st == BgpAnalysisState::RoaDisallowing { assert!(!m0 && c0 && invalid); }
+            if st == BgpAnalysisState::RoaSeen || st == BgpAnalysisState::RoaTooPermissive {
+                assert!(m0 || (c0 && invalid));
+            }
+        }
+        _ => { assert!(false); }
+    }
+    kani::cover!(st == BgpAnalysisState::RoaSeen && m0);
+    kani::cover!(st == BgpAnalysisState::RoaDisallowing);
+    kani::cover!(st == BgpAnalysisState::RoaUnseen);
+    kani::cover!(st == BgpAnalysisState::RoaAs0 && c0);
+    kani::cover!(st == BgpAnalysisState::RoaTooPermissive);
+    std::mem::forget(entry);
+}
+
+/// `categorise_roa` for R0 out of two arbitrary ROAs against one arbitrary
+/// validated announcement: the entry's `authorizes` holds the announcement
+/// iff R0 matches it; `disallows` holds it iff R0 covers it and validation
+/// found it invalid; "unseen" iff neither; and the state never contradicts
+/// the lists.
+// vk: timeout=900; bound=2 arbitrary v4 ROAs x 1 arbitrary announcement (origin not AS0), full width; validated origin = reference verdict (composition with c17b); list sorting inside report entries stubbed out (order is not part of the property)
+#[kani::proof]
+#[kani::unwind(6)]
+#[kani::stub(<[Announcement]>::sort, nop_sort)]
+fn c17e_categorise_sets_2roas_v4() {
+    let r0 = any_roa4();
+    let r1 = any_roa4();
+    let ap = any_v4();
+    let ann = RouteOrigin { prefix: ap, origin: AsNumber::from_u32(kani::any()) };
+    kani::assume(ann.origin != AsNumber::AS0);
+    let roas = [Roa::new(pfx4(&r0), &r0), Roa::new(pfx4(&r1), &r1)];
+    let route = Route { bits: (v4_bits(ap) as u128) << 96, len: ap.addr_len(), asn: ann.origin };
+    let vrps = [vrp4(&r0), vrp4(&r1)];
+    let m0 = ref_matches(&vrps[0], &route);
+    let c0 = ref_covers(&vrps[0], &route);
+    let verdict = ref_verdict(&vrps, &route);
+    let validated = [ValidatedRouteOrigin {
+        route_origin: ann,
+        validity: match verdict {
+            RefVerdict::Valid => RouteOriginValidity::Valid(r0.roa_configuration.payload),
+            RefVerdict::NotFound => RouteOriginValidity::NotFound,
+            RefVerdict::InvalidLength => RouteOriginValidity::InvalidLength,
+            RefVerdict::InvalidAsn => RouteOriginValidity::InvalidAsn,
+            RefVerdict::Disallowed => RouteOriginValidity::Disallowed,
+        },
+        disallowing: Vec::new(),
+    }];
+    let entry = BgpAnalyser::categorise_roa(roas[0], &validated, &roas);
+    let invalid = matches!(verdict, RefVerdict::InvalidLength | RefVerdict::InvalidAsn | RefVerdict::Disallowed);
+    let st = entry.state();
+    match st {
+        BgpAnalysisState::RoaAs0Redundant => {
+            // by design this entry carries no announcement lists
+            assert!(r0.roa_configuration.payload.asn == AsNumber::AS0);
+        }
+        BgpAnalysisState::RoaAs0 => {
+            assert!(r0.roa_configuration.payload.asn == AsNumber::AS0);
+            assert!(entry.authorizes().is_empty());
+            assert!(is_ann(entry.disallows(), &ann) == (c0 && invalid));
+            assert!(entry.disallows().is_empty() == !(c0 && invalid));
+        }
+        BgpAnalysisState::RoaSeen | BgpAnalysisState::RoaTooPermissive
+        | BgpAnalysisState::RoaRedundant | BgpAnalysisState::RoaDisallowing
+        | BgpAnalysisState::RoaUnseen => {
+            assert!(r0.roa_configuration.payload.asn != AsNumber::AS0);
+            assert!(is_ann(entry.authorizes(), &ann) == m0);
+            assert!(entry.authorizes().is_empty() == !m0);
+            assert!(is_ann(entry.disallows(), &ann) == (c0 && invalid));
+            assert!(entry.disallows().is_empty() == !(c0 && invalid));
+            if st == BgpAnalysisState::RoaUnseen { assert!(!m0 && !(c0 && invalid)); }
+            if st == BgpAnalysisState::RoaDisallowing { assert!(!m0 && c0 && invalid); }
+            if st == BgpAnalysisState::RoaSeen || st == BgpAnalysisState::RoaTooPermissive {
+                assert!(m0 || (c0 && invalid));
+            }
+        }
+        _ => { assert!(false); }
+    }
+    kani::cover!(st == BgpAnalysisState::RoaSeen && m0);
+    kani::cover!(st == BgpAnalysisState::RoaDisallowing);
+    kani::cover!(st == BgpAnalysisState::RoaUnseen);
+    kani::cover!(st == BgpAnalysisState::RoaAs0 && c0);
+    kani::cover!(st == BgpAnalysisState::RoaRedundant && m0);
+    kani::cover!(st == BgpAnalysisState::RoaTooPermissive);
+    std::mem::forget(entry);
+}
+
 /// If R' includes R (payload level) and R matches a route, so does R'.
 #[kani::proof]
 fn c17d_includes_implies_validates_v4() {
